@@ -83,6 +83,7 @@ def groups(tier, seed):
             for part in range(P_):
                 gs.append({'kind': 'single', 'sym': sym, 'rank': r, 'part': part, 'parts': P_, 'level': 1 if r <= 3 else 2})
         gs.append({'kind': 'single', 'sym': sym, 'rank': 5, 'part': 0, 'parts': 1, 'level': 2})
+        gs.append({'kind': 'single', 'sym': sym, 'rank': 7, 'part': 0, 'parts': 1, 'level': 2})
         for part in range(4):
             gs.append({'kind': 'pairs', 'sym': sym, 'level': 1, 'part': part, 'parts': 4})
         gs.append({'kind': 'incompatible', 'sym': sym, 'level': 1})
@@ -101,6 +102,9 @@ def run_group(g, acc):
 def single_pool(sym, r, tier):
     ms = GL.msize(sym, 2)
     nch = min(2, len(GL.CHARGES[sym]))
+    if r == 7:   # three fused groups built from different numbers of legs (3, 2, 2): needed to tell a permutation from its inverse
+        yield {'s': [1, -1, 1, -1, 1, -1, 1], 'm': [0] * 7, 'n': nch - 1, 'drop': None, 'var': ['fresh']}
+        return
     if r == 5:
         for n in range(nch):
             for var in (['fresh'], ['lazy', [4, 3, 2, 1, 0]]):
@@ -121,7 +125,12 @@ ARGS5 = [[[0, 1], [2, 3, 4]], [[2, 0], [1, 4, 3]], [[0, 1, 2], [3, 4]], [0, [1, 
          [[1, 0], [2, 3], 4], [[3, 4, 0], [2, 1]]]
 
 
+ARGS7 = [[[0, 1, 2], [3, 4], [5, 6]], [[0, 1], [2, 3, 4], [5, 6]], [[1, 0], [3, 2], [6, 5, 4]]]
+
+
 def level_args(r, tier, first):
+    if r == 7 and first:
+        return ARGS7
     if r == 5 and first:
         return ARGS5
     if r <= 3:
@@ -141,7 +150,9 @@ def check_fused(f, prev, axes, A, spaces, sig, n, state, what):
         return m
     # a lazily transposed fused tensor unfuses (all fused legs at once) into the correspondingly permuted tensor
     if f.ndim >= 2:
-        for perm in ([tuple(range(f.ndim))[::-1]] + ([tuple(range(1, f.ndim)) + (0,)] if f.ndim >= 3 else [])):
+        perms = [p for p in itertools.permutations(range(f.ndim)) if p != tuple(range(f.ndim))] if f.ndim <= 3 else \
+            [tuple(range(f.ndim))[::-1], tuple(range(1, f.ndim)) + (0,)]
+        for perm in perms:
             ft = f.transpose(perm)
             st_p = [state[i] for i in perm]
             order_p = flat(st_p)
